@@ -67,6 +67,13 @@ def build_graph(mod, g, order=None):
             objs[i] = reload_config(objs[i], g["loaded"][str(i)])
     for i, name, v in later:
         setattr(objs[i], name, real_val(mod, v, objs))
+    for m in g.get("inplace") or []:
+        # in-place modification of what a parameter holds (e.g. of the configuration the constructor put there for a
+        # parameter that was not given): `cfg.<arg>[<idx>].<name> = v`
+        tgt = getattr(objs[m["n"]], m["arg"])
+        if m.get("idx") is not None:
+            tgt = tgt[m["idx"]]
+        setattr(tgt, m["name"], real_val(mod, m["v"], objs))
     for i, nd in enumerate(nodes):
         if nd["meta"] is not None:
             setmeta(objs[i], nd["meta"])
@@ -144,8 +151,45 @@ def model_val(v, index):
     raise ValueError(f"unsupported value {type(v)}")
 
 
-def model_graph(objs):
-    """the state of the real objects, as the Lean model's input"""
+def closure(objs):
+    """`objs` followed by every configuration object they reach that the caller did not list: the class-level default
+    objects of configuration-valued defaults (`x: Param[C] = C(a=1)`), the clones the constructor made of them for
+    parameters that were not given, and whatever else the code under test put into the graph"""
+    from experimaestro import Config
+    objs = list(objs)
+    index = {id(o): i for i, o in enumerate(objs)}
+
+    def visit(v):
+        if isinstance(v, Config):
+            if id(v) not in index:
+                index[id(v)] = len(objs)
+                objs.append(v)
+        elif isinstance(v, (list, tuple, set)):
+            for x in v:
+                visit(x)
+        elif isinstance(v, dict):
+            for x in v.values():
+                visit(x)
+
+    k = 0
+    while k < len(objs):
+        o = objs[k]
+        k += 1
+        x = o.__xpm__
+        for name, a in o.__xpmtype__.arguments.items():
+            visit(x.values.get(name))
+            visit(a.default)
+        for p in list(x.pre_tasks) + list(x.init_tasks):
+            visit(p)
+        if x.task is not None:
+            visit(x.task)
+    return objs
+
+
+def model_graph(objs, closed=True):
+    """the state of the real objects, as the Lean model's input (nodes beyond len(objs): see `closure`)"""
+    if closed:
+        objs = closure(objs)
     index = {id(o): i for i, o in enumerate(objs)}
     nodes = []
     for o in objs:
